@@ -146,6 +146,8 @@ class Term:
 
     def step(self, tok, width_of):
         k = tok[0]
+        if k in (4, 5, 6, 7) and tok[1] == 0:
+            tok = [k, 1]          # ECMA-48: parameter 0 means the default, 1
         if k == 1:
             for cp in tok[1:]:
                 self.put([cp], width_of(cp))
@@ -156,7 +158,7 @@ class Term:
             self.cy += 1
             self.pending = 0
         elif k == 4:
-            self.cy = max(0, self.cy - tok[1])
+            self.cy = self.cy - tok[1]      # rows above the origin exist (scrollback)
             self.pending = 0
         elif k == 5:
             self.cy += tok[1]
